@@ -1748,6 +1748,31 @@ func reasmFamily(ctx *Ctx) error {
 				}
 			}
 		}
+		// two calls straddle the moment an event times out, a small fraction of the timeout apart: the first (a Maintain,
+		// a push for another event, another record of the same event) finds nothing to do, the second is the first call
+		// after the timeout and delivers the event, however recently the Reassembler last looked
+		for _, toMs := range []int{160, 240} {
+			for _, pre := range []string{"maintain", "push-other", "push-same", "eoe-other"} {
+				for _, gapPct := range []int{8, 15} {
+					c := RCase{Real: true, InWindow: true, Base: 1000, Max: 5, TimeoutNs: int64(toMs) * int64(time.Millisecond)}
+					c.Ops = append(c.Ops, ROp{K: "push", ID: 1, Seq: 1000, Typ: tSYSCALL}, ROp{K: "sleep", Ms: toMs * 90 / 100})
+					switch pre {
+					case "maintain":
+						c.Ops = append(c.Ops, ROp{K: "maintain"})
+					case "push-other":
+						c.Ops = append(c.Ops, ROp{K: "push", ID: 2, Seq: 1001, Typ: tSYSCALL})
+					case "push-same":
+						c.Ops = append(c.Ops, ROp{K: "push", ID: 2, Seq: 1000, Typ: tPATH})
+					default:
+						c.Ops = append(c.Ops, ROp{K: "push", ID: 2, Seq: 1077, Typ: tEOE})
+					}
+					c.Ops = append(c.Ops, ROp{K: "sleep", Ms: toMs * (10 + gapPct) / 100}, ROp{K: "maintain"}, ROp{K: "close"})
+					res.Hist("two calls straddle the timeout")
+					report(runReasmCase(ctx, m, c, idx), c)
+					idx++
+				}
+			}
+		}
 		n := ctx.N(40, 400)
 		for i := 0; i < n && res.NumViolations() < 5; i++ {
 			c := genReasmRealCase(ctx.Rng)
